@@ -246,4 +246,16 @@ pub fn run(ctx: &Arc<Ctx>) {
     ctx.sample(serde_json::to_value(cases.iter().find(|c| matches!(c, Case::ExtractCrafted { .. })).unwrap()).unwrap());
     ctx.cov("annex_keys", json!("ds_A and de_B are pinned in the reference self-test; the library is compared with the reference on the same inputs (k=annex-ks/Alice/sign, k=annex-ke/Bob/enc)"));
     run_cases(ctx, &cases, 16, eval);
+    {
+        let items: Vec<Case> = vec![
+            Case::Extract { k: hexbig(&masters[3].1), id: "Alice".into(), kind: "sign".into(), tag: "sequence".into() },
+            Case::Extract { k: hexbig(&masters[3].1), id: "Alice".into(), kind: "enc".into(), tag: "sequence".into() },
+            Case::Extract { k: hexbig(&masters[3].1), id: "Alice".into(), kind: "exch".into(), tag: "sequence".into() },
+            Case::Extract { k: hexbig(&masters[5].1), id: "Alice".into(), kind: "enc".into(), tag: "sequence".into() },
+        ];
+        let mut seqs = permutations(&items);
+        seqs.extend(permutations(&[Case::H1 { id_len: 5, id_class: "seed".into(), hid: 1 }, Case::H1 { id_len: 5, id_class: "seed".into(), hid: 2 }, Case::H1 { id_len: 5, id_class: "seed".into(), hid: 3 }, Case::H1 { id_len: 5, id_class: "zero".into(), hid: 1 }]));
+        ctx.cov("related_input_sequences", json!(seqs.len()));
+        run_sequences(ctx, &seqs, eval);
+    }
 }
